@@ -132,7 +132,7 @@ static std::string corrupt(Rng& r, const Telegram& t, std::vector<uint8_t>* w, s
   wireOf(t, false, false, false, false, w, &org);
   size_t n = w->size();
   gaps->assign(n, 0);
-  int kind = r.range(0, 14);
+  int kind = r.range(0, 15);
   size_t pos = r.below((uint32_t)n);
   switch (kind) {
     case 0: (*w)[pos] ^= (uint8_t)(1 << r.below(8)); return "bitflip@" + std::to_string(pos);
@@ -191,6 +191,12 @@ static std::string corrupt(Rng& r, const Telegram& t, std::vector<uint8_t>* w, s
       if (!specIsMaster(x.zz)) { auto sp = specWire({0x01, 0x55}); w->insert(w->end(), sp.begin(), sp.end()); w->push_back(0x00); }
       gaps->assign(w->size(), 0);
       return "zz-invalid-valid-crc"; }
+    case 15: { // stray symbols directly after SYN (escape symbol alone or escaped pair, lone address) cut off by the next SYN
+      static const std::vector<std::vector<uint8_t>> frags = {{0xA9}, {0xA9, 0x00}, {0xA9, 0x01}, {0xA9, 0xA9}, {0x10}, {0x10, 0xA9}, {0x31, 0x08, 0xA9}};
+      *w = frags[r.below((uint32_t)frags.size())];
+      if ((*w)[0] != 0xA9 && r.chance(1, 2)) (*w)[0] = t.qq;
+      gaps->assign(w->size(), 0);
+      return "stray-after-syn"; }
     case 10: { // CRC of the last part wrong
       (*w)[t.zz == 0xFE ? n - 1 : n - (specIsMaster(t.zz) ? 2 : 2)] ^= 0x01; return "crc-flip"; }
     default: { // ACK although the master CRC is wrong
